@@ -14,7 +14,11 @@ Run-time contracts on the REAL functions, oracle = per-row plain-Python definiti
 Scope (see run()): A. every list of 1..3 rows of length 0..Lmax x w = 1..wmax x content variants x alphabets/paths;
 B. exhaustive contents over small alphabets; C. long ragged layouts (rows of length w-1, w, w+1, 0, 1, long rows, short
 last row, > 2 machine words of 2-bit letters) for every k = 1..31 on every alphabet for which |A|**k < 2**63;
-D. single flat sequences and 2-D equal-length input; E. KmerEncoding text <-> code for every k = 1..31.
+D. single flat sequences and 2-D equal-length input; E. KmerEncoding text <-> code for every k = 1..31;
+V. input history: the cases of A (content variant 0), A', C, D and the samples once more with the same logical rows handed over as a
+NOT-YET-FLATTENED VIEW of a larger array (reads[::-1], reads[order], reads[mask], reads[1:], reads[:, 1:], reads[:, :-1], ...; see
+view_recipe), alphabet-encoded and ASCII, bit-packed and generic path, same per-row oracle; signatures carry ':view';
+F. scale: count_kmers with 1e6 / 2e6 / 3e6 (+-1, +3, +5) windows in total - the counting loop works in blocks of 1e6 windows.
 Precondition kept: total number of letters >= window (the statement's quantifier), |A|**k representable in int64.
 """
 import itertools
